@@ -240,6 +240,11 @@ pub fn first_diff(a: &D, b: &D, path: &str) -> Option<String> {
             }
             None
         },
+        // An interpolation slot written with its location against one parsed
+        // by a tree that does not record it yet.
+        (D::Tuple(v1), D::Tuple(v2)) if v1.len() == 3 && v2.len() == 2 && matches!((&v1[0], &v1[1], &v2[0], &v2[1]), (D::Int(_), D::Int(_), D::Int(_), D::Int(_))) => {
+            if v1[0] == v2[0] && v1[1] == v2[1] { None } else { Some(format!("{path}: {v1:?} vs {v2:?}")) }
+        },
         (D::Tuple(v1), D::Tuple(v2)) | (D::List(v1), D::List(v2)) => {
             if v1.len() != v2.len() {
                 return Some(format!("{path}: length {} vs {}", v1.len(), v2.len()));
@@ -358,7 +363,8 @@ impl Image<'_> {
                             let text = format!("${{{}}}", sub.src);
                             let start = s.len();
                             s.push_str(&text);
-                            slots.push(D::Tuple(vec![D::Int(start as i128), D::Int(s.len() as i128)]));
+                            // (start, end, source location of the slot's expression)
+                            slots.push(D::Tuple(vec![D::Int(start as i128), D::Int(s.len() as i128), self.first(se.id)]));
                         },
                     }
                 }
@@ -526,7 +532,7 @@ pub fn expr_from(d: &D, sp: SlotParser) -> Result<Expr, String> {
                     let mut last = 0usize;
                     for sl in as_list(slots)? {
                         let (a, b) = match sl {
-                            D::Tuple(v) if v.len() == 2 => match (&v[0], &v[1]) {
+                            D::Tuple(v) if v.len() == 2 || v.len() == 3 => match (&v[0], &v[1]) {
                                 (D::Int(a), D::Int(b)) => (*a as usize, *b as usize),
                                 _ => return Err("bad slot".to_string()),
                             },
